@@ -231,7 +231,7 @@ def gen_scenario(rng, prof=None, force_selflock=None):
         load['S'] = sig(rng.uniform(0.05, 0.8) * T_out, 3)
         load['W'] = sig(2 * math.pi / (dt_si * rng.uniform(5, 40)), 4)
     if rng.random() < 0.25:
-        load['step_t'] = sig(dt_si * rng.uniform(1, n), 3)
+        load['step_t'] = dt_si * (rng.randint(1, max(1, n - 1)) + 0.5)       # half-way between two instants: never a rounding matter
         load['step_A'] = sig(rng.uniform(-2, 2) * T_out, 3)
     spec['load'] = load
     # initial conditions
